@@ -543,8 +543,9 @@ Proof.
   unfold maybe_commit. intros H. inv_bind H. destruct x as [l' b'].
   apply log_maybe_commit_same_ents in Hx.
   destruct b'.
-  - destruct (get_pr r (r_id r)); [|discriminate]. inversion H; subst.
-    eapply fr_trans; [apply set_log_fr; exact Hx|apply put_pr_fr].
+  - destruct (get_pr r (r_id r)); inversion H; subst.
+    + eapply fr_trans; [apply set_log_fr; exact Hx|apply put_pr_fr].
+    + apply set_log_fr; exact Hx.
   - inversion H; subst. apply set_log_fr; exact Hx.
 Qed.
 
@@ -2060,7 +2061,8 @@ Proof.
   pose proof (set_log_fr r l' Hl) as H0.
   match type of H with (if ?c then _ else _) = _ => destruct c end;
     [|inversion H; subst; exact H0].
-  match type of H with match ?g with _ => _ end = _ => destruct g as [pr|] end; [|discriminate].
+  match type of H with match ?g with _ => _ end = _ => destruct g as [pr|] end;
+    [|inversion H; subst; exact H0].
   destruct (maybe_update pr i) as [pr' u].
   eapply fr_trans; [exact H0|]. eapply fr_trans; [apply put_pr_fr|].
   destruct u; [|inversion H; subst; apply fr_refl].
